@@ -34,6 +34,7 @@ declare -A PROP=(
  ["electric models no longer share one default random"]="C11"
  ["wrap stream operations report the call's cancellation"]="C13"
  ["a Collection subscriber skips the events of writes"]="C03"
+ ["wrap guards a stream's trailer"]="C11"
 )
 git -C /repo log --format='%h %s' | grep ' fix: ' | while read -r h subj; do
   prop=""
